@@ -338,6 +338,13 @@ func opC07Eng(fields []string) string {
 	path, cleanup := c07Scratch(content)
 	defer cleanup()
 	paths := []string{path}
+	if len(fields) > 2 && fields[2] == "link" {
+		// the path handed to RunFiles is a symbolic link to the file (the CLI's file list keeps link entries): same bytes
+		link := filepath.Join(filepath.Dir(path), "ln")
+		if err := os.Symlink(filepath.Base(path), link); err == nil {
+			paths = []string{link}
+		}
+	}
 	twice := len(fields) > 2 && fields[2] == "twice" && !strings.Contains(src, "\n")
 	if twice {
 		// the same path listed twice: a single-command program must report its matches twice
@@ -676,6 +683,9 @@ func init() {
 					if r.Intn(5) == 0 {
 						fl = append(fl, "twice")
 						st.Counts["engine-runs-path-twice"]++
+					} else if k%4 == 1 {
+						fl = append(fl, "link")
+						st.Counts["engine-runs-through-symlink"]++
 					}
 					cases = append(cases, Case{
 						ID:     fmt.Sprintf("e%d", k),
